@@ -1,10 +1,242 @@
 package main
 
-import "fmt"
+// Extraction of emitted code (DESIGN.md section 3): on every run the working-tree plugins are built and
+// run on a fixed schema; the emitted package is type-checked and handed to the same VC generator.
+// Nothing of the emitted files is dropped.
 
-// LoadEmitted extracts the emitted constant templates by running the working-tree plugins (see extract.go).
-func (w *World) LoadEmitted() error {
-	return fmt.Errorf("not implemented yet")
+import (
+	"fmt"
+	"go/ast"
+	"go/types"
+	"os"
+	"path/filepath"
+	"strings"
+
+	"golang.org/x/tools/go/packages"
+)
+
+const emittedPkgPath = "example.com/ext/v1"
+const emittedClientPkgPath = "example.com/extc/v1"
+
+// the Go client cannot express repeated query parameters (emitted code does not compile): use a scalar there
+func queryTags(client bool) M {
+	if client {
+		return withOpt(field("tags", "string"), "sebuf.http.query", M{"name": "tag"})
+	}
+	return withOpt(repeated(field("tags", "string")), "sebuf.http.query", M{"name": "tag"})
 }
 
-func (w *World) LookupEmitted(name string) *FuncInfo { return nil }
+// extractionSchema: a service with several routes (path variables, query parameters, service and
+// method headers, body and bodiless verbs) so that the schema-dependent registration code is present too.
+func extractionSchema(client bool) *Schema {
+	f := protoFile("ext/v1/ext.proto", "ext.v1", emittedPkgPath+";extv1")
+	if client {
+		f = protoFile("extc/v1/ext.proto", "ext.v1", emittedClientPkgPath+";extv1")
+	}
+	addMessage(f, message("GetNoteRequest",
+		field("id", "string"),
+		withOpt(field("page", "int32"), "sebuf.http.query", M{"name": "page"}),
+		queryTags(client),
+		withOpt(field("verbose", "bool"), "sebuf.http.query", M{"name": "verbose", "required": true}),
+	))
+	addMessage(f, message("UpdateNoteRequest", field("id", "string"), field("title", "string"), field("version", "int64")))
+	addMessage(f, message("ListNotesRequest", field("filter", "string")))
+	addMessage(f, message("Note", field("id", "string"), field("title", "string"), field("version", "int64")))
+	addMessage(f, message("NotFoundError", field("resource", "string"), field("id", "string")))
+	hdr := func(name, typ, format string, required bool) M {
+		h := M{"name": name, "type": typ, "required": required}
+		if format != "" {
+			h["format"] = format
+		}
+		return h
+	}
+	get := withOpt(method("GetNote", ".ext.v1.GetNoteRequest", ".ext.v1.Note"), "sebuf.http.config", M{"path": "/notes/{id}", "method": "HTTP_METHOD_GET"})
+	upd := withOpt(method("UpdateNote", ".ext.v1.UpdateNoteRequest", ".ext.v1.Note"), "sebuf.http.config", M{"path": "/notes/{id}", "method": "HTTP_METHOD_PUT"})
+	if client {
+		// the Go client emits a duplicate option function when a method header repeats a service header name
+		withOpt(upd, "sebuf.http.method_headers", M{"required_headers": []any{hdr("X-Request-ID", "string", "uuid", true)}})
+	} else {
+		withOpt(upd, "sebuf.http.method_headers", M{"required_headers": []any{hdr("X-Request-ID", "string", "uuid", true), hdr("X-API-Key", "integer", "", true)}})
+	}
+	lst := withOpt(method("ListNotes", ".ext.v1.ListNotesRequest", ".ext.v1.Note"), "sebuf.http.config", M{"path": "/notes/list", "method": "HTTP_METHOD_POST"})
+	svc := service("NoteService", get, upd, lst)
+	withOpt(svc, "sebuf.http.service_config", M{"base_path": "/api/v1"})
+	withOpt(svc, "sebuf.http.service_headers", M{"required_headers": []any{hdr("X-API-Key", "string", "", true)}})
+	addService(f, svc)
+	return &Schema{Files: []map[string]any{f}}
+}
+
+// EmitPackage runs protoc-gen-go plus the given sebuf plugins on the schema and writes a buildable scratch
+// module; it returns the package directory.
+func EmitPackage(s *Schema, name string, plugins []string, params map[string]string) (string, map[string]*GenOutput, error) {
+	t, err := GetTools()
+	if err != nil {
+		return "", nil, err
+	}
+	dir := filepath.Join(scratch(), "emitted-"+name)
+	os.RemoveAll(dir)
+	if err := os.MkdirAll(dir, 0o755); err != nil {
+		return "", nil, err
+	}
+	outs := map[string]*GenOutput{}
+	var pkgDir string
+	for _, pl := range append([]string{"protoc-gen-go"}, plugins...) {
+		sc := *s
+		sc.Parameter = params[pl]
+		req, err := t.MakeRequest(&sc)
+		if err != nil {
+			return "", nil, fmt.Errorf("schema rejected: %w", err)
+		}
+		o, err := t.RunPlugin(pl, req)
+		if err != nil {
+			return "", nil, err
+		}
+		outs[pl] = o
+		if o.Crash != "" || o.Error != "" {
+			return "", outs, fmt.Errorf("%s failed: %s%s", pl, o.Crash, o.Error)
+		}
+		for _, f := range o.Files {
+			if !strings.HasSuffix(f.Name, ".go") {
+				continue
+			}
+			p := filepath.Join(dir, "src", f.Name)
+			os.MkdirAll(filepath.Dir(p), 0o755)
+			if err := os.WriteFile(p, []byte(f.Content), 0o644); err != nil {
+				return "", nil, err
+			}
+			pkgDir = filepath.Dir(p)
+		}
+	}
+	// module root = dir/src/<module path>
+	modRoot := filepath.Join(dir, "src", "example.com")
+	stub := filepath.Join(verifDir(), "harness", "stub", "protovalidate")
+	gomod := fmt.Sprintf("module example.com\n\ngo 1.24.7\n\nrequire (\n\tgithub.com/SebastienMelki/sebuf v0.0.0\n\tbuf.build/go/protovalidate v0.0.0\n)\n\nreplace github.com/SebastienMelki/sebuf => %s\n\nreplace buf.build/go/protovalidate => %s\n", t.Repo, stub)
+	if err := os.WriteFile(filepath.Join(modRoot, "go.mod"), []byte(gomod), 0o644); err != nil {
+		return "", nil, err
+	}
+	sum, _ := os.ReadFile(filepath.Join(t.Repo, "go.sum"))
+	os.WriteFile(filepath.Join(modRoot, "go.sum"), sum, 0o644)
+	return pkgDir, outs, nil
+}
+
+// LoadEmitted extracts the emitted Go server and client for the fixed schema and indexes their functions.
+func (w *World) LoadEmitted() error {
+	if w.emittedLoaded {
+		return w.emittedErr
+	}
+	w.emittedLoaded = true
+	for i, spec := range []struct {
+		name    string
+		client  bool
+		plugins []string
+	}{{"ext", false, []string{"protoc-gen-go-http"}}, {"extc", true, []string{"protoc-gen-go-client"}}} {
+		pkgDir, _, err := EmitPackage(extractionSchema(spec.client), spec.name, spec.plugins, map[string]string{"protoc-gen-go-http": "generate_mock=true"})
+		if err != nil {
+			w.emittedErr = err
+			return err
+		}
+		cfg := &packages.Config{
+			Mode: packages.NeedName | packages.NeedSyntax | packages.NeedTypes | packages.NeedTypesInfo |
+				packages.NeedImports | packages.NeedDeps | packages.NeedFiles | packages.NeedCompiledGoFiles,
+			Dir:  pkgDir,
+			Fset: w.Fset,
+			Env:  goEnv(),
+		}
+		pkgs, err := packages.Load(cfg, ".")
+		if err != nil {
+			w.emittedErr = err
+			return err
+		}
+		if len(pkgs) != 1 {
+			w.emittedErr = fmt.Errorf("emitted package: expected 1 package, got %d", len(pkgs))
+			return w.emittedErr
+		}
+		p := pkgs[0]
+		if len(p.Errors) > 0 {
+			var es []string
+			for _, e := range p.Errors {
+				es = append(es, e.Error())
+			}
+			w.emittedErr = fmt.Errorf("emitted package %s does not type-check: %s", spec.name, firstLines(strings.Join(es, "\n"), 6))
+			return w.emittedErr
+		}
+		w.EmittedPaths[p.PkgPath] = true
+		w.AddPackage(p)
+		if i == 0 {
+			w.Emitted = p
+			w.EmittedDir = pkgDir
+		} else {
+			w.EmittedClient = p
+		}
+		packages.Visit(pkgs, nil, func(q *packages.Package) {
+			if _, ok := w.ByPath[q.PkgPath]; !ok {
+				w.ByPath[q.PkgPath] = q
+			}
+		})
+	}
+	p := w.Emitted
+	// dependencies of the emitted package that are not yet known (net/http ...)
+	w.ByName["emitted"] = p.Types
+	w.ByName["emittedclient"] = w.EmittedClient.Types
+	if q, ok := w.ByPath["net/http"]; ok && q.Types != nil {
+		w.ByName["nethttp"] = q.Types
+	}
+	if q, ok := w.ByPath["net/url"]; ok && q.Types != nil {
+		w.ByName["neturl"] = q.Types
+	}
+	if q, ok := w.ByPath["context"]; ok && q.Types != nil {
+		w.ByName["context"] = q.Types
+	}
+	return nil
+}
+
+// LookupEmitted finds an emitted function or method ("Name" or "Type.Method") in the extracted package.
+func (w *World) LookupEmitted(name string) *FuncInfo {
+	if w.Emitted == nil {
+		return nil
+	}
+	parts := strings.Split(name, ".")
+	for _, pkg := range []*packages.Package{w.Emitted, w.EmittedClient} {
+		if pkg == nil {
+			continue
+		}
+		scope := pkg.Types.Scope()
+		if len(parts) == 1 {
+			if f, ok := scope.Lookup(parts[0]).(*types.Func); ok {
+				return w.Funcs[f.FullName()]
+			}
+			continue
+		}
+		tn, ok := scope.Lookup(parts[0]).(*types.TypeName)
+		if !ok {
+			continue
+		}
+		for _, t := range []types.Type{tn.Type(), types.NewPointer(tn.Type())} {
+			obj, _, _ := types.LookupFieldOrMethod(t, true, pkg.Types, parts[1])
+			if f, ok := obj.(*types.Func); ok {
+				return w.Funcs[f.FullName()]
+			}
+		}
+	}
+	return nil
+}
+
+// emittedFuncDecls lists all function declarations of the extracted package by file suffix.
+func (w *World) emittedFuncDecls(fileSuffix string) []*ast.FuncDecl {
+	var out []*ast.FuncDecl
+	if w.Emitted == nil {
+		return nil
+	}
+	for i, f := range w.Emitted.Syntax {
+		name := w.Emitted.CompiledGoFiles[i]
+		if !strings.HasSuffix(name, fileSuffix) {
+			continue
+		}
+		for _, d := range f.Decls {
+			if fd, ok := d.(*ast.FuncDecl); ok {
+				out = append(out, fd)
+			}
+		}
+	}
+	return out
+}
